@@ -138,6 +138,23 @@ func cmdJob(args []string) int {
 		fmt.Println("  INCONCLUSIVE:", m)
 	}
 	fmt.Printf("  reach: %v\n", keysOf(agg.Reach))
+	{
+		type kv struct {
+			k string
+			v int
+		}
+		var fs []kv
+		for k, v := range agg.Funcs {
+			if strings.HasPrefix(k, "fork@") {
+				fs = append(fs, kv{k, v})
+			}
+		}
+		sort.Slice(fs, func(i, j int) bool { return fs[i].v > fs[j].v })
+		for i := 0; i < len(fs) && i < 8; i++ {
+			fmt.Printf("  forks %7d  %s\n", fs[i].v, fs[i].k[5:])
+		}
+		fmt.Printf("  narrowed decisions: %d\n", agg.St.Narrowed)
+	}
 	if *verbose {
 		for _, c := range agg.Samples {
 			fmt.Printf("  sample: %s %v\n", modelStr(c.Model), c.Emits)
@@ -269,6 +286,7 @@ func aggregate(results []*JobResult) *Agg {
 		a.St.ModelChecks += r.St.ModelChecks
 		a.St.FanoutCapHits += r.St.FanoutCapHits
 		a.St.Fallbacks += r.St.Fallbacks
+		a.St.Narrowed += r.St.Narrowed
 		for i := range a.Queries {
 			a.Queries[i] += r.Queries[i]
 		}
@@ -355,6 +373,7 @@ func cmdRun(args []string) int {
 	cfg := &RunConfig{Tier: *tier, Seed: *seed, Workers: *workers, Verbose: *verbose}
 	if *tier == "thorough" {
 		cfg.StopAfter = 40 * time.Minute
+		cfg.NarrowAfter = 1000000
 		cfg.HardStop = 150 * time.Minute
 		cfg.TLimitMs = 60000
 		cfg.XEvery = 1
@@ -364,6 +383,7 @@ func cmdRun(args []string) int {
 		cfg.XEvery = 10
 		cfg.ValidateCap = 40
 		cfg.StopAfter = 4 * time.Minute
+		cfg.NarrowAfter = 40000
 		cfg.HardStop = 15 * time.Minute
 	}
 	jobs := jobsFor(*prop, *tier)
@@ -618,39 +638,61 @@ func cmdRun(args []string) int {
 		}
 	}
 	fams := keysOf(agg.Families)
+	var forkSites []string
+	{
+		type kv struct {
+			k string
+			v int
+		}
+		var fs []kv
+		for k, v := range agg.Funcs {
+			if strings.HasPrefix(k, "fork@") {
+				fs = append(fs, kv{k[5:], v})
+			}
+		}
+		sort.Slice(fs, func(i, j int) bool { return fs[i].v > fs[j].v || (fs[i].v == fs[j].v && fs[i].k < fs[j].k) })
+		for i := 0; i < len(fs) && i < 8; i++ {
+			forkSites = append(forkSites, fmt.Sprintf("%s: %d", fs[i].k, fs[i].v))
+		}
+	}
+	if agg.St.Narrowed > 0 {
+		fmt.Printf("NOTE property=%s: %d decisions kept one alternative only (the layout of numbers and table names rendered into byte slices, or a job beyond %d paths): the exploration is bounded there, not exhaustive\n", *prop, agg.St.Narrowed, cfg.NarrowAfter)
+	}
 	cov := map[string]interface{}{
-		"states":                             max(agg.Paths, 1),
-		"transitions":                        max(agg.St.Decisions, 1),
-		"traces_validated_against_impl":      validated,
-		"samples":                            samples,
-		"exhaustive":                         !inconclusive,
-		"explanation":                        meta.Explanation,
-		"bounds":                             meta.Bounds[*tier],
-		"outside_the_claim":                  meta.Outside,
-		"jobs":                               agg.Jobs,
-		"sub_jobs_from_splitting":            agg.SubJobs,
-		"job_families":                       fams,
-		"per_family":                         famStats,
-		"paths_pruned_by_assumptions":        agg.Pruned,
-		"path_outcomes":                      agg.Outcomes,
-		"functions_encoded":                  encoded,
-		"functions_encoded_count":            len(encoded),
-		"library_functions_total":            len(libFns),
-		"queries":                            map[string]int{"total": agg.Queries[0], "sat": agg.Queries[1], "unsat": agg.Queries[2], "unknown": agg.Queries[3], "decided_by_current_model": agg.St.ModelHits, "decided_syntactically": agg.St.Syntactic},
-		"solver_time_s":                      round2(agg.SolverT.Seconds()),
-		"solvers":                            []string{"cvc5 1.0.3 --incremental (all queries)", "z3 4.8.12 (cross-check of unsat answers)"},
-		"cross_solver_checked":               agg.St.XChecked,
-		"cross_solver_disagreements":         agg.St.XDisagree,
-		"solver_models_checked_by_evaluator": agg.St.ModelChecks,
-		"max_library_steps_on_a_path":        agg.MaxSteps,
-		"max_library_alloc_bytes_on_a_path":  agg.MaxAlloc,
-		"vacuity_markers_reached":            keysOf(agg.Reach),
-		"vacuity_markers_missing":            missing,
-		"translation_validation_mismatches":  mismatches,
-		"violations":                         violOut,
-		"known_findings_matched":             nKnown,
-		"inconclusive":                       agg.Inconc,
-		"fanout_cap_hits":                    agg.St.FanoutCapHits,
+		"states":                                    max(agg.Paths, 1),
+		"transitions":                               max(agg.St.Decisions, 1),
+		"traces_validated_against_impl":             validated,
+		"samples":                                   samples,
+		"exhaustive":                                !inconclusive && agg.St.Narrowed == 0,
+		"explanation":                               meta.Explanation,
+		"bounds":                                    meta.Bounds[*tier],
+		"outside_the_claim":                         meta.Outside,
+		"jobs":                                      agg.Jobs,
+		"sub_jobs_from_splitting":                   agg.SubJobs,
+		"job_families":                              fams,
+		"per_family":                                famStats,
+		"paths_pruned_by_assumptions":               agg.Pruned,
+		"path_outcomes":                             agg.Outcomes,
+		"functions_encoded":                         encoded,
+		"functions_encoded_count":                   len(encoded),
+		"library_functions_total":                   len(libFns),
+		"queries":                                   map[string]int{"total": agg.Queries[0], "sat": agg.Queries[1], "unsat": agg.Queries[2], "unknown": agg.Queries[3], "decided_by_current_model": agg.St.ModelHits, "decided_syntactically": agg.St.Syntactic},
+		"solver_time_s":                             round2(agg.SolverT.Seconds()),
+		"solvers":                                   []string{"cvc5 1.0.3 --incremental (all queries)", "z3 4.8.12 (cross-check of unsat answers)"},
+		"cross_solver_checked":                      agg.St.XChecked,
+		"cross_solver_disagreements":                agg.St.XDisagree,
+		"solver_models_checked_by_evaluator":        agg.St.ModelChecks,
+		"max_library_steps_on_a_path":               agg.MaxSteps,
+		"max_library_alloc_bytes_on_a_path":         agg.MaxAlloc,
+		"vacuity_markers_reached":                   keysOf(agg.Reach),
+		"vacuity_markers_missing":                   missing,
+		"translation_validation_mismatches":         mismatches,
+		"violations":                                violOut,
+		"known_findings_matched":                    nKnown,
+		"inconclusive":                              agg.Inconc,
+		"fanout_cap_hits":                           agg.St.FanoutCapHits,
+		"decisions_narrowed_to_one_alternative":     agg.St.Narrowed,
+		"functions_with_most_new_symbolic_branches": forkSites,
 		"jobs_not_explored_after_a_violation_and_time_budget": agg.AbortedJobs,
 		"queries_answered_by_second_solver_after_timeout":     agg.St.Fallbacks,
 		"time_s":     map[string]float64{"load_and_ssa": round2(loadS), "explore": round2(exploreS), "native_build_and_run": round2(nativeS)},
